@@ -126,6 +126,25 @@ def cases(rng, tier):
                 mode = "five" if (csr + regs[0]) % 2 else "single"
                 lines = [f"sim.new {mode} 1 - lru,0,1,1,0", "sim.prog " + " ".join(prog), "sim.snap", "sim.listingtext"]
                 yield Case("views", lines, None, {"tok": tok, "addr": 4, "prog": prog, "mode": mode})
+    # the listing of an instruction memory that is CHANGED while it is displayed: instructions stored one at a time through the
+    # public per-instruction entry point (appended and replaced), the listing read before and after every change
+    for i in range(24 if tier == "quick" else 300):
+        mode = "five" if i % 2 else "single"
+        ops = [o for o in OPS if o not in ("ecall", "ebreak", "fence") and not o.startswith("csr")]
+        prog = [rand_tok(rng, "addi", 0)] * 0 + [rand_tok(rng, rng.choice(["addi", "xori", "lui", "add"]), 4 * k) for k in range(rng.choice([0, 1, 3]))]
+        lines = [f"sim.new {mode} 1 - -", "sim.prog " + " ".join(prog), "sim.snap", "sim.listingtext"]
+        cur = list(prog)
+        for _ in range(rng.choice([2, 4, 6])):
+            k = rng.choice([len(cur)] + list(range(len(cur))))
+            t = rand_tok(rng, rng.choice(ops), 4 * k)
+            lines += [f"sim.wi {k} {t}", "sim.listingtext"]
+            if k < len(cur):
+                cur[k] = t
+            else:
+                cur.append(t)
+            if rng.random() < 0.3:
+                lines += ["sim.step", "sim.snap", "sim.listingtext"]
+        yield Case("views-wi", lines, None, {"mode": mode, "prog": prog})
     # listing fix-point
     for _ in range(60 if tier == "quick" else 1000):
         items, decls = rvasmgen.gen_abstract(rng, {"data": rng.random() < 0.5})
@@ -156,6 +175,8 @@ def view_case(rng, op, regs=None, zero_imm=False, wide=False, mode=None):
 
 
 def nontrivial(c):
+    if c.suite == "views-wi":
+        return "\n".join(c.lines)
     if c.suite == "views":
         return (c.meta["tok"], c.meta["addr"], c.meta["mode"], c.lines[0])
     if c.suite == "repr":
@@ -207,8 +228,33 @@ def _views_oracle(c):
     return fails
 
 
+def _wi_oracle(c):
+    """the listing shows, at every moment, exactly the instructions the instruction memory holds"""
+    cur = []
+    for l, o in zip(c.lines, c.impl_out):
+        f = l.split()
+        if f[0] == "sim.prog":
+            cur = f[1:]
+        elif f[0] == "sim.wi" and o == "ok":
+            k = int(f[1])
+            if k < len(cur):
+                cur[k] = f[2]
+            else:
+                cur.append(f[2])
+        elif f[0] == "sim.listingtext":
+            rows = [] if o == "." else [r.split(",") for r in o.split(";")]
+            got = [(int(r[0]), bytes.fromhex(r[2]).decode() if r[2] != "." else "") for r in rows]
+            want = [(4 * k, repr(implmod.make_instr(t))) for k, t in enumerate(cur)]
+            if got != want:
+                j = next((i for i, (x, y) in enumerate(zip(got, want)) if x != y), min(len(got), len(want)))
+                return [Failure("oracle", PROP, f"the listing shows {got[j] if j < len(got) else None} where the instruction memory holds {want[j] if j < len(want) else None} ({len(got)} rows for {len(want)} instructions)", "listing:stale")]
+    return []
+
+
 def oracle(c):
     fails = []
+    if c.suite == "views-wi":
+        return _wi_oracle(c)
     if c.suite == "views":
         return _views_oracle(c)
     if len(c.impl_out) != 2 or not c.lines[1].startswith("asm"):
